@@ -77,7 +77,6 @@ func (h264dp *h264Depacketizer) Depacketize(packet *Packet) (err error) {
 
 func (h264dp *h264Depacketizer) depacketizeStapa(packet *Packet) (err error) {
 	payload := packet.Payload()
-	header := payload[0]
 
 	// 	0                   1                   2                   3
 	// 	0 1 2 3 4 5 6 7 8 9 0 1 2 3 4 5 6 7 8 9 0 1 2 3 4 5 6 7 8 9 0 1
@@ -96,28 +95,25 @@ func (h264dp *h264Depacketizer) depacketizeStapa(packet *Packet) (err error) {
 	//  +-+-+-+-+-+-+-+-+-+-+-+-+-+-+-+-+-+-+-+-+-+-+-+-+-+-+-+-+-+-+-+-+
 	off := 1 // 跳过 STAP-A NAL HDR
 	// 循环读取被封装的NAL
-	for {
+	for off+2 <= len(payload) {
 		// nal长度
-		nalSize := ((uint16(payload[off])) << 8) | uint16(payload[off+1])
-		if nalSize < 1 {
+		nalSize := int(payload[off])<<8 | int(payload[off+1])
+		off += 2
+		if nalSize < 1 || off+nalSize > len(payload) {
+			// 长度非法或超出包的范围(包被截断)，丢弃剩余部分，不输出残缺的 NAL
 			return
 		}
 
-		off += 2
 		frame := &codec.Frame{
 			MediaType: codec.MediaTypeVideo,
 			Payload:   make([]byte, nalSize),
 		}
-		copy(frame.Payload, payload[off:])
-		frame.Payload[0] = 0 | (header & 0x60) | (frame.Payload[0] & 0x1F)
+		copy(frame.Payload, payload[off:off+nalSize]) // 原样复制，包括 NAL 自己的头
 		if err = h264dp.writeFrame(packet.Timestamp, frame); err != nil {
 			return
 		}
 
-		off += int(nalSize)
-		if off >= len(payload) { // 扫描完成
-			break
-		}
+		off += nalSize
 	}
 	return
 }
